@@ -17,7 +17,7 @@ RULE = ("executable programs over the harness native gate set (1-,2-,3-qubit, sy
 ASSUMPTIONS = ["harness native gate set and its matrices (vf/gateset_sig.py)", "reference executor vf/refexec.py",
                "programs rejected by the emulator with JaqalError are judged by C12/C13/C14, not here"]
 TIERS = {"quick": {"shards": 8, "budget_s": 90}, "thorough": {"shards": 16, "budget_s": 420}}
-REQUIRE = {"overrides-applied-after-macro-expansion:ML": 100, "overrides-applied-after-macro-expansion:PML": 100, "run-through-text-entry-point:string": 200, "run-through-text-entry-point:file": 200, "calls-of-stretched-variants": 500, "sections-with-a-repeated-prepare": 300, "busy-gates-with-unitary-inserted": 300, "keyword-calls-in-another-order": 500, "gate-set-variant:B": 100, "gate-set-variant:A": 100, "states-compared": 300, "gate:2q-asym": 50, "gate:3q": 20, "via-alias": 100, "via-macro": 50, "override-used": 30,
+REQUIRE = {"overrides-applied-after-macro-expansion:PA": 60, "overrides-applied-after-macro-expansion:ML": 100, "overrides-applied-after-macro-expansion:PML": 100, "run-through-text-entry-point:string": 200, "run-through-text-entry-point:file": 200, "calls-of-stretched-variants": 500, "sections-with-a-repeated-prepare": 300, "busy-gates-with-unitary-inserted": 300, "keyword-calls-in-another-order": 500, "gate-set-variant:B": 100, "gate-set-variant:A": 100, "states-compared": 300, "gate:2q-asym": 50, "gate:3q": 20, "via-alias": 100, "via-macro": 50, "override-used": 30,
            "loop-in-section": 30, "probe:basis": 50, "probe:moved-alias": 100}
 ATOL = 1e-9
 
@@ -56,6 +56,14 @@ def judge(case):
             return "skipped:expand-macros-first-rejected", [], info
         s.c = om[1]
         info["order"] = "ML"
+    elif ov and case.get("order") == "PA" and case.get("api") is None:
+        # the parser substitutes lets and aliases itself (expand_let_map) under the overrides
+        op = lib.outcome(lib.parse, s.text, X.native(variant), expand_let_map=True, override_dict=dict(ov))
+        if op[0] != "ok":
+            return "skipped:parser-options-rejected", [], info  # fill_in_map documents what it cannot write out
+        s.c = op[1]
+        ov = None
+        info["order"] = "PA"
     elif ov and case.get("order") == "PML" and case.get("api") is None:
         # the parser does it: macros expanded, then lets substituted under the overrides; the result is run as it is
         op = lib.outcome(lib.parse, s.text, X.native(variant), expand_macro=True, expand_let=True, override_dict=dict(ov))
@@ -334,7 +342,7 @@ def shard(ctx):
                 ov = make_override(rng, prog)
                 if ov:
                     case["ov"] = ov
-                    case["order"] = rng.choice(["LM", "ML", "PML"])
+                    case["order"] = rng.choice(["LM", "ML", "PML", "PA"])
         case["npseed"] = rng.randrange(1 << 30)
         case["variant"] = "B" if rng.random() < 0.35 else "A"
         if case["variant"] == "A" and not case.get("probe") and rng.random() < 0.2:
